@@ -390,3 +390,67 @@ theorem sum_mono_dom (s : Finset U) (A B : U → Prop) [DecidablePred A] [Decida
   · intro u hu _
     rw [Finset.mem_filter] at hu
     exact hf u hu.1 hu.2
+
+
+/-! ## L-WM (C05): what "the intercept-only quantile regression at tau = 1/2" computes
+    proved by an independent session working only from the statement -/
+
+/-! L-WM: a minimiser of the weighted absolute loss is a weighted median.
+    (The intercept-only quantile regression at tau = 1/2 minimises  Σ w_i * (1/2) * |y_i - m|  over m, which has the same
+    minimisers as  Σ w_i * |y_i - m| .)  Prove the theorem (no sorry, no axioms); keep the statement exactly as it is. -/
+
+lemma wmedian_aux {ι : Type} [DecidableEq ι] (s : Finset ι) (w y : ι → ℝ)
+    (hw : ∀ i ∈ s, 0 ≤ w i) (m : ℝ)
+    (hmin : ∀ m' : ℝ, ∑ i ∈ s, w i * |y i - m| ≤ ∑ i ∈ s, w i * |y i - m'|) :
+    ∑ i ∈ s.filter (fun i => y i < m), w i ≤ (∑ i ∈ s, w i) / 2 := by
+  by_contra h
+  rw [not_le] at h
+  have hW : 0 ≤ ∑ i ∈ s, w i := Finset.sum_nonneg hw
+  have hne : (s.filter (fun i => y i < m)).Nonempty := by
+    by_contra hne
+    rw [Finset.not_nonempty_iff_eq_empty] at hne
+    rw [hne] at h
+    simp at h
+    linarith
+  obtain ⟨j, hj, hmax⟩ := Finset.exists_max_image _ y hne
+  have hjm : y j < m := (Finset.mem_filter.mp hj).2
+  have key : ∀ i ∈ s, w i * |y i - y j| ≤
+      w i * |y i - m| + (m - y j) * (w i - 2 * (if y i < m then w i else 0)) := by
+    intro i hi
+    by_cases hlt : y i < m
+    · have h1 : y i ≤ y j := hmax i (Finset.mem_filter.mpr ⟨hi, hlt⟩)
+      rw [if_pos hlt, abs_of_nonpos (by linarith), abs_of_nonpos (by linarith)]
+      apply le_of_eq
+      ring
+    · have h1 : m ≤ y i := not_lt.mp hlt
+      rw [if_neg hlt, abs_of_nonneg (by linarith), abs_of_nonneg (by linarith)]
+      apply le_of_eq
+      ring
+  have hsum := Finset.sum_le_sum key
+  rw [Finset.sum_add_distrib, ← Finset.mul_sum, Finset.sum_sub_distrib, ← Finset.mul_sum,
+    ← Finset.sum_filter] at hsum
+  have h2 := hmin (y j)
+  have hδ : 0 < m - y j := by linarith
+  nlinarith [mul_pos hδ (show (0:ℝ) < 2 * (∑ i ∈ s.filter (fun i => y i < m), w i) - ∑ i ∈ s, w i by linarith)]
+
+theorem wmedian_of_minimiser {ι : Type} [DecidableEq ι] (s : Finset ι) (w y : ι → ℝ)
+    (hw : ∀ i ∈ s, 0 ≤ w i) (m : ℝ)
+    (hmin : ∀ m' : ℝ, ∑ i ∈ s, w i * |y i - m| ≤ ∑ i ∈ s, w i * |y i - m'|) :
+    ∑ i ∈ s.filter (fun i => y i < m), w i ≤ (∑ i ∈ s, w i) / 2 ∧
+    ∑ i ∈ s.filter (fun i => m < y i), w i ≤ (∑ i ∈ s, w i) / 2 := by
+  refine ⟨wmedian_aux s w y hw m hmin, ?_⟩
+  have h := wmedian_aux s w (fun i => - y i) hw (-m) (by
+    intro m'
+    have e1 : ∀ i, |(-y i) - (-m)| = |y i - m| := by
+      intro i
+      rw [← abs_neg]
+      congr 1
+      ring
+    have e2 : ∀ i, |(-y i) - m'| = |y i - (-m')| := by
+      intro i
+      rw [← abs_neg]
+      congr 1
+      ring
+    simp only [e1, e2]
+    exact hmin (-m'))
+  simpa only [neg_lt_neg_iff] using h
